@@ -4,12 +4,9 @@ import importlib, json, os, sys
 sys.path.insert(0, os.path.dirname(os.path.abspath(__file__)))
 ALL = ['C%02d' % i for i in range(1, 21)]
 NA = {
- 'C02': 'UNIQUE/SKIPPED/REPEATED classification and pre/trans/post are arithmetic on per-zone runtime tables; no clause is visible in the shape of the code beyond the table-ordering rule already carried under C14.',
  'C03': 'A round-trip equality between two value computations over all instants: a relation between results, not a shape; no sound static argument in reach.',
- 'C05': 'Exact inverse arithmetic over int64 with overflow avoidance; the only structural clause (one overload per tag) is carried under C04 and would not catch realistic mutants.',
- 'C06': 'Monotonicity of a composition of value computations over pairs of inputs; not decidable from code shape.',
+ 'C05': 'Exact inverse arithmetic over int64 with overflow avoidance, and agreement of the order with the difference: relations between results. The structural clauses in reach (one overload per tag; the lexicographic comparison) are carried under C04 or exercised by every test of the suite.',
  'C07': 'format-then-parse identity over instants x formats x zones: value semantics of two 300-line string routines plus libc.',
- 'C18': 'Floor-vs-truncate of template arithmetic per ratio is value semantics; the one structural clause (two-sided guard before the narrowing cast in join_seconds) is already exercised by the suite.',
 }
 checks, na = [], []
 for pid in ALL:
